@@ -32,6 +32,8 @@ def strip_comments(text):
 
 def source_hash():
     h = hashlib.sha256()
+    from .props import theorems as T
+    h.update(repr(sorted(T.THEOREMS.items())).encode())
     for p in lean_sources():
         h.update(p.encode())
         with open(p, "rb") as f:
@@ -82,7 +84,12 @@ def run_audit(force=False, timeout=3000):
     res = {"hash": h, "build_ok": ok, "build_log": "" if ok else log, "forbidden": forbidden_tokens(),
            "axioms": {}, "cached": False}
     if ok:
-        rc, out = _run(["lake", "env", "lean", "MabModel/Audit.lean"], timeout)
+        from .props import theorems as T
+        src = "".join("import %s\n" % m for m in T.all_imports())
+        src += "".join("#print axioms %s\n" % t for t in T.all_theorems())
+        p = subprocess.run(["lake", "env", "lean", "--stdin"], cwd=common.LEAN_DIR, input=src,
+                           capture_output=True, text=True, timeout=timeout)
+        rc, out = p.returncode, p.stdout + p.stderr
         res["audit_rc"] = rc
         # "'Mab.foo' depends on axioms: [propext, Quot.sound]" / "'Mab.foo' does not depend on any axioms"
         for m in re.finditer(r"'([^']+)' depends on axioms: \[([^\]]*)\]", out, flags=re.S):
